@@ -898,6 +898,9 @@ type vfC14ExecSpec struct {
 	// burst driver: the executor announces itself (ready++) and spins until *spin != 0, so that several start together
 	spin  *int32
 	ready *int32
+	// reuse: the executor does not build a Query of its own - it binds and executes again the Query value kept here
+	// (and leaves the one it executed there): one long-lived Query, used by one executor after the other
+	reuse **Query
 }
 
 func vfC14Classify(err error) string {
@@ -1106,7 +1109,14 @@ func (env *vfC14Env) execute(ctx context.Context, sp vfC14ExecSpec) (cls string,
 	case "bind":
 		q = env.sess.Bind(vfC14StmtByName(it.S).Text, binder(it)).WithContext(ctx)
 	case "qbind":
-		q = env.sess.Query(vfC14StmtByName(it.S).Text).Bind(vfC14Args(sp.E, it.N)...).WithContext(ctx)
+		if sp.reuse != nil && *sp.reuse != nil {
+			q = (*sp.reuse).Bind(vfC14Args(sp.E, it.N)...).WithContext(ctx)
+		} else {
+			q = env.sess.Query(vfC14StmtByName(it.S).Text).Bind(vfC14Args(sp.E, it.N)...).WithContext(ctx)
+		}
+		if sp.reuse != nil {
+			*sp.reuse = q
+		}
 	default:
 		q = env.sess.Query(vfC14StmtByName(it.S).Text, vfC14Args(sp.E, it.N)...).WithContext(ctx)
 	}
@@ -1187,4 +1197,17 @@ func vfC14Mine(ev string) bool {
 	}
 	return strings.HasPrefix(ev, "c_") && (ev == "c_hit" || ev == "c_miss" || ev == "c_remove" || ev == "c_evict" || ev == "c_gone") ||
 		strings.HasPrefix(ev, "n_") && (ev == "n_prepare" || ev == "n_prep_reply" || ev == "n_prep_lost" || ev == "n_execute" || ev == "n_exec_reply" || ev == "n_forget")
+}
+
+// tabKeys: the node-side entries (host, keyspace, statement) of statement name s
+func (env *vfC14Env) tabKeys(s string) map[vfC14Key]bool {
+	env.mu.Lock()
+	defer env.mu.Unlock()
+	out := map[vfC14Key]bool{}
+	for k := range env.tab {
+		if k.S == s {
+			out[k] = true
+		}
+	}
+	return out
 }
